@@ -364,6 +364,11 @@ fn positions(k: usize, nd: [u8; 3], hay: &[u8]) -> Vec<u32> {
     (0..hay.len()).filter(|&i| nd[..k].contains(&hay[i])).map(|i| i as u32).collect()
 }
 
+static THOROUGH_RUNS: std::sync::atomic::AtomicBool = std::sync::atomic::AtomicBool::new(false);
+fn thorough_runs() -> bool {
+    THOROUGH_RUNS.load(std::sync::atomic::Ordering::Relaxed)
+}
+
 fn build_cases(kinds: &[&'static str], l1: usize, l23: usize, long: bool, aligns: &[usize]) -> Vec<Case> {
     let nd = [0x00u8, 0x80, 0xff];
     let other = 0x01u8;
@@ -404,6 +409,33 @@ fn build_cases(kinds: &[&'static str], l1: usize, l23: usize, long: bool, aligns
             }
         }
         if long {
+            // run shapes m^R o^G m^S (o^2): a RUN of adjacent matches of every
+            // length around 16, 32 (thorough: every length up to 70) followed
+            // by a gap and a second run - iterators that change mode after a
+            // number of consecutive events
+            let rs: Vec<usize> = if thorough_runs() { (0..=70).collect() } else { vec![1, 2, 8, 14, 15, 16, 17, 18, 19, 20, 30, 31, 32, 33, 34, 35] };
+            let gs: &[usize] = if thorough_runs() { &[1, 2, 17] } else { &[1, 2] };
+            let ss: &[usize] = if thorough_runs() { &[0, 1, 2, 20] } else { &[0, 2] };
+            for &rl in &rs {
+                for &g in gs {
+                    for &sl in ss {
+                        for lead in [0usize, 1] {
+                            if lead == 1 && !(rl == 17 || rl == 18 || rl == 33 || thorough_runs()) {
+                                continue;
+                            }
+                            let mut data = vec![other; lead];
+                            data.extend((0..rl).map(|i| nd[i % k]));
+                            data.extend(std::iter::repeat(other).take(g));
+                            data.extend((0..sl).map(|i| nd[(i + 1) % k]));
+                            if sl > 0 {
+                                data.extend_from_slice(&[other, other]);
+                            }
+                            let hay = crate::leak_placed(&data, 3, nd[0]);
+                            cases.push(Case { kind, nd, hay, align: 3, positions: positions(k, nd, hay) });
+                        }
+                    }
+                }
+            }
             // long haystacks: matches inside one vector, at vector and loop
             // boundaries, sparse, and all-match
             for &len in &[70usize, 200, 300] {
@@ -473,6 +505,7 @@ pub fn run(args: &Args, thorough: bool, total: &mut Report, bounds: &mut Map<Str
     let l1 = args.num("l1", if thorough { 12 } else { 10 }) as usize;
     let l23 = args.num("l23", if thorough { 8 } else { 6 }) as usize;
     let aligns: Vec<usize> = if thorough { vec![0, 1, 7] } else { vec![0, 3] };
+    THOROUGH_RUNS.store(thorough, std::sync::atomic::Ordering::Relaxed);
     let cases = build_cases(&kinds, l1, l23, true, &aligns);
     let ncases = cases.len();
     let model = BytesModel {
@@ -547,7 +580,7 @@ pub fn run(args: &Args, thorough: bool, total: &mut Report, bounds: &mut Map<Str
     });
     bounds.insert("bytes-model".into(), json!({
         "kinds": kinds, "init_states": ncases, "full_len_k1": l1, "full_len_k23": l23, "aligns": aligns,
-        "long_haystacks": [70, 200, 300], "unique_states": unique, "generated_states": generated, "max_depth": depth,
+        "long_haystacks": [70, 200, 300], "run_shapes": if thorough { "m^R o^G m^S for R in 0..=70, G in {1,2,17}, S in {0,1,2,20}" } else { "m^R o^G m^S for R in {1,2,8,14..20,30..35}, G in {1,2}, S in {0,2}" }, "unique_states": unique, "generated_states": generated, "max_depth": depth,
         "history_cross_check": {"depth": d, "histories": n_hist.load(Ordering::Relaxed)},
     }));
 }
